@@ -243,6 +243,17 @@ func (vr *variableResolver) String() string {
 	return strings.Join(parts, ".")
 }
 
+// argumentFits reports whether the evaluated argument can be passed for a
+// parameter of type fnArg: it has exactly that type, or the parameter is an
+// interface the argument's type implements (a nil fits every interface).
+func argumentFits(fnArg reflect.Type, pv *Value) bool {
+	argType := reflect.TypeOf(pv.Interface())
+	if fnArg == argType {
+		return true
+	}
+	return fnArg.Kind() == reflect.Interface && (argType == nil || argType.Implements(fnArg))
+}
+
 func (vr *variableResolver) resolve(ctx *ExecutionContext) (*Value, error) {
 	var current reflect.Value
 	var isSafe bool
@@ -473,12 +484,12 @@ func (vr *variableResolver) resolve(ctx *ExecutionContext) (*Value, error) {
 				if fnArg != typeOfValuePtr {
 					// Function's argument is not a *pongo2.Value, then we have to check whether input argument is of the same type as the function's argument
 					if !isVariadic {
-						if fnArg != reflect.TypeOf(pv.Interface()) && fnArg.Kind() != reflect.Interface {
+						if !argumentFits(fnArg, pv) {
 							return nil, fmt.Errorf("function input argument %d of '%s' must be of type %s or *pongo2.Value (not %T)",
 								idx, vr.String(), fnArg.String(), pv.Interface())
 						}
 					} else {
-						if fnArg != reflect.TypeOf(pv.Interface()) && fnArg.Kind() != reflect.Interface {
+						if !argumentFits(fnArg, pv) {
 							return nil, fmt.Errorf("function variadic input argument of '%s' must be of type %s or *pongo2.Value (not %T)",
 								vr.String(), fnArg.String(), pv.Interface())
 						}
